@@ -194,7 +194,17 @@ def apply_op(sc, a):
     gid = 0
     try:
         if op == "add":
-            sc.add_objects(build(toks[0]))
+            t = tokens()[toks[0]]
+            if t["k"] in ("sign", "light"):
+                # signs / lights are added with lanelet ids that are not (or no longer) in the network: the lanelets that
+                # name them but are absent, and one id (9) no object of the universe has
+                f = "sg" if t["k"] == "sign" else "lt"
+                ids = {u["id"] for u in tokens().values() if u["k"] == "lanelet" and t["id"] in u[f]} | {9}
+                ids = {i for i in ids if sc.lanelet_network.find_lanelet_by_id(i) is None}    # absent ones only: the
+                # references of contained lanelets are part of the modelled state and must not be re-created here
+                sc.add_objects(build(toks[0]), ids)
+            else:
+                sc.add_objects(build(toks[0]))
         elif op == "add_list":
             sc.add_objects([build(n) for n in toks])
         elif op == "replace":
